@@ -50,7 +50,7 @@ Pick(old, cands) ==   \* keep the first failure, tagged with the number of the o
 
 Has(api, enc, srt, split) == \E k \in 1..NObs : T.obs[k].api = api /\ T.obs[k].enc = enc /\ T.obs[k].sort = srt /\ T.obs[k].split = split
 Find(api, enc, srt, split) == T.obs[CHOOSE k \in 1..NObs : T.obs[k].api = api /\ T.obs[k].enc = enc /\ T.obs[k].sort = srt /\ T.obs[k].split = split]
-Other(enc) == IF enc = "shank" THEN "geom" ELSE "shank"
+Others(enc) == {"shank", "geom", "both"} \ {enc}
 
 \* what the harness wrote into the metadata is what the specification calls the encoding of the table
 EntriesOK ==
@@ -86,7 +86,8 @@ PropClauses(o, H) ==
             <<o.sort \/ G!UnsortedP(H, o.idx), "Unsorted">>,
             <<~o.sort \/ G!SortedP(H), "Sorted">>,
             <<~Has(o.api, o.enc, FALSE, o.split) \/ G!JointPermP(H, Hdr(Find(o.api, o.enc, FALSE, o.split)), o.idx), "JointPerm">>,
-            <<~Has(o.api, Other(o.enc), o.sort, o.split) \/ G!EncAgreeP(H, Hdr(Find(o.api, Other(o.enc), o.sort, o.split))), "EncAgree">>,
+            <<\A e2 \in Others(o.enc) :
+                  ~Has(o.api, e2, o.sort, o.split) \/ G!EncAgreeP(H, Hdr(Find(o.api, e2, o.sort, o.split))), "EncAgree">>,
             <<o.split = -1 \/ o.sort \/ ~Has(o.api, o.enc, FALSE, -1)
                  \/ G!SplitP(Hdr(Find(o.api, o.enc, FALSE, -1)), o.split, H), "SplitRestriction">>,
             <<o.split # -1 \/ o.sort \/ Len(H) # 384
